@@ -892,7 +892,10 @@ def unit_audioreader(sess, ctx):
             eng.prove("C19:AudioReader-init:record-flag", eng.st.heap[me.oid].get("_record") is record, props=P19)
             return None
         inner = inner_obj(eng, v)
-        eng.st.heap[inner.oid].update({"block_size": Int("bs"), "data": Opq(tag="recorded")})
+        bs_ = Int("bs")
+        eng.assume(bs_ >= 1)
+        # the framing layer under an AudioReader: block_size samples, block_dur = block_size / rate (unit fixed)
+        eng.st.heap[inner.oid].update({"block_size": bs_, "block_dur": Fl(eng.spec_div(bs_, v.sr)), "data": Opq(tag="recorded")})
         eng.iface[("IAudioSource", "read")] = lambda e, o, a, k: gh.setdefault("reads", []).append((a, k)) or gh["blk"]
         rec = eng.choose(2, None, "recording reader?") == 0
         me = eng.st.new_obj("AudioReader", {"_audio_source": inner, "_record": rec})
@@ -912,14 +915,17 @@ def unit_audioreader(sess, ctx):
             has_hop = eng.choose(2, None, "overlapping framing?") == 0
             hs = Int("hop_size")
             if has_hop:
-                eng.st.heap[inner.oid].update({"hop_size": hs, "hop_dur": Opq(tag="x")})
+                eng.assume(hs >= 1)
+                eng.st.heap[inner.oid].update({"hop_size": hs, "hop_dur": Fl(eng.spec_div(hs, v.sr))})
             eng.inline |= {QU + "AudioReader.hop_size", QU + "AudioReader.hop_dur", QU + "AudioReader.block_dur",
                            QU + "AudioReader.__getattr__"}
             r1 = eng.getattr(me, "hop_size")
             r2 = eng.getattr(me, "hop_dur")
             bs = eng.st.heap[inner.oid]["block_size"]
             exp = hs if has_hop else bs
-            eng.prove("C10:AudioReader:hop_size-is-the-hop-or-the-block", is_int(r1) and z3.is_true(z3.simplify(I(r1) == exp)), props=P10)
+            eng.prove("C10:AudioReader:hop_size-is-the-hop-or-the-block", (I(r1) == exp) if is_int(r1) else False, props=P10)
+            r3 = eng.getattr(me, "block_size")
+            eng.prove("C10:AudioReader:block_size-is-the-number-of-samples-per-block", (I(r3) == bs) if is_int(r3) else False, props=P10 + ("C05",))
             eng.prove("C10:AudioReader:hop_dur-is-hop_size/rate", (r2.t == eng.spec_div(exp, v.sr)) if isinstance(r2, Fl) else False, props=P10)
             return None
         if op == "max_read":
